@@ -156,3 +156,56 @@ func TestC09R(t *testing.T) {
 	common.Drive(t, rec, func(rt *rapid.T) *Plan { return genPlanC09R(rt) }, run)
 	completed = true
 }
+
+// TestC03RR: the stop-and-wait clauses that survive a reconnect - a Send whose request is unacknowledged while the
+// gateway ends the connection and a new one is established keeps retransmitting *the same* request, and no other
+// request leaves in between (real clock; the plans of the C09 reconnect job).
+func TestC03RR(t *testing.T) {
+	rec := common.NewRec("C03", "real-reconnect")
+	completed := false
+	defer func() { rec.Finish(completed) }()
+	run := func(p *Plan) *common.Fail {
+		rec.InFlight(p)
+		res := runReal(p)
+		rec.Landed()
+		if res.ConnErr != "" {
+			rec.Inconclusive("initial connect failed")
+			return nil
+		}
+		evs := res.Events
+		firstHex := map[int]string{}
+		last, epochs, across := 0, 0, false
+		epochAtFirst := map[int]int{}
+		for i, e := range evs {
+			switch {
+			case e.K == "dlv" && e.Svc == "ConnRes" && e.St == 0:
+				epochs++
+			case e.K == "out" && e.Svc == "TunnelReq":
+				h, seen := firstHex[e.Tag]
+				switch {
+				case !seen:
+					firstHex[e.Tag], epochAtFirst[e.Tag] = e.Hex, epochs
+				case last != e.Tag:
+					return failTrace(evs, i, "interleaved", "a request for telegram %d left the socket after a request for telegram %d had been transmitted in between: two requests were unacknowledged at the same time", e.Tag, last)
+				case h != e.Hex:
+					return failTrace(evs, i, "retransmission-differs", "a retransmission of telegram %d differs from its first transmission (%d connection(s) were established in between):\n first %s\n this  %s", e.Tag, epochs-epochAtFirst[e.Tag], h, e.Hex)
+				default:
+					if epochs > epochAtFirst[e.Tag] {
+						across = true
+					}
+				}
+				last = e.Tag
+			}
+		}
+		if across {
+			rec.Class("real: a request was retransmitted after the connection had been re-established")
+			rec.NonTrivial(common.HashJSON(p))
+		} else {
+			rec.Class("real: no retransmission crossed a reconnect")
+		}
+		rec.Sample("real-reconnect", map[string]any{"plan": p})
+		return nil
+	}
+	common.Drive(t, rec, func(rt *rapid.T) *Plan { return genPlanC09R(rt) }, run)
+	completed = true
+}
